@@ -4,6 +4,8 @@ import (
 	"database/sql"
 	"errors"
 	"fmt"
+	"io"
+	"log"
 	"sort"
 	"strings"
 	"sync"
@@ -12,6 +14,7 @@ import (
 
 	"gorm.io/gorm"
 	"gorm.io/gorm/clause"
+	"gorm.io/gorm/logger"
 	"pgregory.net/rapid"
 
 	"verif/internal/chains"
@@ -28,7 +31,14 @@ const rule = "C01: chains drawn from the grammar of internal/chains (Where/Not/O
 var (
 	dryOnce    sync.Once
 	dryQ, dryN *gorm.DB
+	// the same pair with the stock logger at Info level and ParameterizedQueries: it is asked to
+	// explain every statement and filters the parameters; that must not change what is exposed
+	dryLogQ, dryLogN *gorm.DB
 )
+
+func traceLogger() logger.Interface {
+	return logger.New(log.New(io.Discard, "", 0), logger.Config{LogLevel: logger.Info, ParameterizedQueries: true})
+}
 
 func fixedNow() time.Time { return testdb.FixedNow }
 
@@ -41,10 +51,12 @@ func dry() (*gorm.DB, *gorm.DB) {
 	dryOnce.Do(func() {
 		dryQ = testdb.Dry(false, gorm.Config{NowFunc: fixedNow, SkipDefaultTransaction: true}) // no connection: a multi-batch create must not try to begin
 		dryN = testdb.Dry(true, gorm.Config{NowFunc: fixedNow, SkipDefaultTransaction: true})
+		dryLogQ = testdb.Dry(false, gorm.Config{NowFunc: fixedNow, SkipDefaultTransaction: true, Logger: traceLogger()})
+		dryLogN = testdb.Dry(true, gorm.Config{NowFunc: fixedNow, SkipDefaultTransaction: true, Logger: traceLogger()})
 		for _, h := range []struct {
 			db  *gorm.DB
 			out *[]captured
-		}{{dryQ, &capQ}, {dryN, &capN}} {
+		}{{dryQ, &capQ}, {dryN, &capN}, {dryLogQ, &capQ}, {dryLogN, &capN}} {
 			out := h.out
 			fn := func(tx *gorm.DB) {
 				*out = append(*out, captured{sql: tx.Statement.SQL.String(), vars: append([]interface{}(nil), tx.Statement.Vars...)})
@@ -111,6 +123,13 @@ func checkDry(rt *rapid.T, c *chains.Chain) {
 	desc := c.String()
 	evid.Journal(desc)
 	q, n := dry()
+	logging := rapid.IntRange(0, 3).Draw(rt, "logging") == 0
+	if logging {
+		q, n = dryLogQ, dryLogN
+		if rapid.Bool().Draw(rt, "debug") {
+			q, n = q.Debug(), n.Debug()
+		}
+	}
 	capQ, capN = nil, nil
 	txQ := c.Apply(batchHandle(q, c))
 	txN := c.Apply(batchHandle(n, c))
@@ -136,6 +155,9 @@ func checkDry(rt *rapid.T, c *chains.Chain) {
 	classes := chains.SortedKeys(info.Classes)
 	for _, h := range chains.SortedKeys(info.Hazards) {
 		classes = append(classes, "hazard:"+h)
+	}
+	if logging {
+		classes = append(classes, "logger:info+pq")
 	}
 	evid.Case(desc, nt, first, classes...)
 
@@ -234,6 +256,11 @@ func checkExec(rt *rapid.T, c *chains.Chain) {
 	queryFields := rapid.IntRange(0, 4).Draw(rt, "queryfields") == 0
 	noNested := rapid.Bool().Draw(rt, "nonested")
 	inTx := rapid.IntRange(0, 3).Draw(rt, "intx") == 0
+	var lg logger.Interface
+	logging := rapid.IntRange(0, 3).Draw(rt, "logging") == 0
+	if logging {
+		lg = traceLogger()
+	}
 	desc := c.String()
 	if inTx {
 		desc = "in Transaction: " + desc
@@ -242,7 +269,7 @@ func checkExec(rt *rapid.T, c *chains.Chain) {
 	// Create from maps is run on the dialect configuration without RETURNING: with it gorm
 	// fails (or panics) while scanning the returned keys back into []map values after the
 	// statement was sent, which is not this property's subject (see the report).
-	d := testdb.Open(testdb.Options{Config: gorm.Config{NowFunc: fixedNow, CreateBatchSize: c.ConfigBatchSize(), QueryFields: queryFields,
+	d := testdb.Open(testdb.Options{Config: gorm.Config{NowFunc: fixedNow, Logger: lg, CreateBatchSize: c.ConfigBatchSize(), QueryFields: queryFields,
 		DisableNestedTransaction: noNested}, NoReturning: noReturning})
 	defer d.Close()
 	if err := chains.Prepare(d.SQL); err != nil {
@@ -298,7 +325,7 @@ func checkExec(rt *rapid.T, c *chains.Chain) {
 		smp.Vars = chains.Render(vs)
 	}
 	classes = append(classes, "executed")
-	for name, on := range map[string]bool{"config:no-returning": noReturning, "config:query-fields": queryFields, "config:no-nested-tx": noNested, "in-transaction": inTx} {
+	for name, on := range map[string]bool{"logger:info+pq": logging, "config:no-returning": noReturning, "config:query-fields": queryFields, "config:no-nested-tx": noNested, "in-transaction": inTx} {
 		if on {
 			classes = append(classes, name)
 		}
